@@ -77,6 +77,7 @@ fn main() {
             "c12_bytes" => vm::c12_bytes(r),
             "c12_roundtrip" => vm::c12_roundtrip(r),
             "c12_op" => vm::c12_op(r),
+            "c04_env" => vm::c04_env(r),
             "c06_mutations" => c06::c06_mutations(r),
             "c08" => c06::c08(r),
             "c14_votes" => c14::c14_votes(r),
